@@ -332,16 +332,20 @@ def main():
             return 2
         if not build_targets([tgt]):
             return 2
-        opens, _ = load_known(prop)
+        main_prop = prop[:3] if prop else prop   # sub-checks (C18g, C12r, ...) belong to the listed property
+        opens, _ = load_known(main_prop)
         kf_args = sum([["--kf", kf_spec(f)] for f in opens], [])
         rc, out = replay_once(tgt, path, kf_args)
         sys.stdout.write(out or "")
         if rc == 0:
+            for f in opens:
+                if out and "known-finding region hit: %s" % f["id"] in out:
+                    print("KNOWN-FINDING: property=%s %s" % (main_prop, f["what"]))
             return 0
         if rc is None:
             print("INCONCLUSIVE: replay timed out")
             return 0
-        print("VIOLATION property=%s replay=%s" % (prop, path))
+        print("VIOLATION property=%s replay=%s" % (main_prop, path))
         return 1
 
     prop = args[0]
